@@ -12,7 +12,8 @@ EXTENDS GenericImpl, Json, TLC
 CONSTANTS Qs, Offs, Ws, MemHost, Branch,
           BigQs        \* start quadlets far into a large PDU (the descriptor's quadlet index is an octet: 0..255), swept with a reduced shape set
 VARIABLES d, img, st
-Img(k, n) == Mat([i \in 1..n |-> IF k = 0 THEN 0 ELSE IF k = 1 THEN 255 ELSE (i * 53 + 17 * k) % 256])
+\* (not periodic in 256 bytes: an access that lands 256 or 1024 bytes off must see different data)
+Img(k, n) == Mat([i \in 1..n |-> IF k = 0 THEN 0 ELSE IF k = 1 THEN 255 ELSE (i * 53 + (i \div 64) * 7 + (i \div 256) * 29 + 17 * k) % 256])
 AllFF == Fill(8, 255)
 AltA  == Fill(8, 170)
 Vals  == { AllFF, AltA, <<1, 35, 69, 103, 137, 171, 205, 239>> }
